@@ -76,7 +76,14 @@ SubPairs ==
        \cup UNION {{<<TB("Res", r, NoRef, NoOffset), TB("Key", ByH(s), ByH(k), NoOffset)>> : r \in R, k \in {k \in 1..Len(st.sets[s].keys) : st.sets[s].keys[k].alive}} : s \in LiveSets(st)}
        \cup UNION {{<<TB("Text", r, NoRef, Off("B", 0, "B", 1)), TB("Data", ByH(s), ByH(d), NoOffset)>> : r \in R, d \in {d \in 1..Len(st.sets[s].data) : st.sets[s].data[d].alive}} : s \in LiveSets(st)}
 
-ComplexTargets == {Complex(k, p) : k \in {"Multi", "Composite", "Directional"}, p \in {q \in SubPairs : q[1] # q[2]}}
+\* pairs of key / data / annotation sub-selectors (the canonical order of a Multi/Composite selector must be total)
+SubPairsMeta ==
+    LET KS == UNION {{TB("Key", ByH(s), ByH(k), NoOffset) : k \in {k \in 1..Len(st.sets[s].keys) : st.sets[s].keys[k].alive}} : s \in LiveSets(st)}
+        DS == UNION {{TB("Data", ByH(s), ByH(d), NoOffset) : d \in {d \in 1..Len(st.sets[s].data) : st.sets[s].data[d].alive}} : s \in LiveSets(st)}
+        AS == {TB("Ann", x, NoRef, NoOffset) : x \in AnnRefs}
+    IN {<<x, y>> : x \in KS, y \in KS} \cup {<<x, y>> : x \in DS, y \in DS} \cup {<<x, y>> : x \in DS, y \in KS}
+       \cup {<<x, y>> : x \in KS, y \in AS} \cup {<<x, y>> : x \in DS, y \in AS}
+ComplexTargets == {Complex(k, p) : k \in {"Multi", "Composite", "Directional"}, p \in (IF Scenario = "complexmeta" THEN SubPairsMeta ELSE {})} \cup {Complex(k, p) : k \in {"Multi", "Composite", "Directional"}, p \in {q \in SubPairs : q[1] # q[2]}}
 
 BadTargets ==
     {NoTarget, TB("Res", ById("nope"), NoRef, NoOffset), TB("Ann", ByH(99), NoRef, NoOffset),
@@ -124,8 +131,8 @@ AnnotateMenu ==
       [] Scenario = "complexrel" -> {[id |-> "", target |-> t, data |-> <<>>] : t \in RelComplexTargets}
       [] Scenario = "core" ->
            {[id |-> i, target |-> t, data |-> d] : i \in AnnIds, t \in SimpleTargets, d \in DataMenu}
-      [] Scenario = "complex" ->
-           {[id |-> "", target |-> t, data |-> <<>>] : t \in SimpleTargets \cup ComplexTargets}
+      [] Scenario \in {"complex", "complexmeta"} ->
+           {[id |-> "", target |-> t, data |-> <<>>] : t \in (IF Scenario = "complex" THEN SimpleTargets ELSE {}) \cup ComplexTargets}
       [] Scenario = "fail" ->
            {[id |-> i, target |-> t, data |-> d] : i \in AnnIds, t \in BadTargets, d \in {<<>>} \cup {x \in DataMenu : Len(x) = 1 /\ x[1].id.by = "none"}}
            \cup {[id |-> i, target |-> t, data |-> d] : i \in AnnIds, t \in {x \in SimpleTargets : x.kind \in {"Text", "Res"}}, d \in BadDataMenu \cup {<<>>}}
@@ -276,7 +283,7 @@ Step(ev, a) ==
 Building == Scenario \notin {"remove", "protect", "transpose", "batch", "tempish"}
 \* tuning steps do not change the specification state, so they are only worth generating when histories are emitted
 Tuning == ~EmitAll
-Adding == Scenario \notin {"remove", "offsets", "related", "textops", "batch", "tempish", "complexrel"}
+Adding == Scenario \notin {"remove", "offsets", "related", "textops", "batch", "tempish", "complexrel", "complexmeta"}
 \* C07: one resource per behaviour, over every text up to P1 characters of the alphabet selected by P2
 TextAlphabet == CASE P2 = 1 -> {11, 41, 12} [] P2 = 2 -> {11, 22, 32} [] P2 = 3 -> {11, 31, 21}
                        [] P2 = 5 -> {11, 32, 43}      \* a character that grows and one that shrinks when lower-cased
@@ -537,6 +544,11 @@ LoadOps ==
     \cup {L("json", "ann", i, o, a) : i \in 1..Min2(NAnnDoc, 2), o \in {"tempid", "tempid_target", "data_tempid"}, a \in 0..7}
     \cup {L("json", "ann", 1, "offset", a) : a \in 0..8}
     \cup {L("json", "ann", i, "chain_offset", a) : i \in 1..Min2(NAnnDoc, 2), a \in 0..4}
+    \cup {L("json", "ann", 2, o, a) : o \in {"offset_end", "offset_rel", "offset_rel_end"}, a \in 0..11}
+    \cup {L("json", "ann", 1, "offset", a) : a \in 9..11}
+    \cup {L("json", "ann", i, "multi_keys", a) : i \in 1..Min2(NAnnDoc, 2), a \in 0..2} \cup {L("json", "ann", 2, "multi_mixed", 0)}
+    \cup {L("json", "ann", i, "data_tempid_full", a) : i \in 1..Min2(NAnnDoc, 2), a \in 0..7}
+    \cup {L("json", "top", 1, "second_annotations", a) : a \in 0..7}
     \cup {L("json", "set", 1, o, 0) : o \in {"key_dup", "key_null", "keys_string", "del_keys", "data_key_dangling", "value_type_unknown", "dup", "include_missing"}}
     \cup {L("json", "set", 1, "data_tempid", a) : a \in 0..7} \cup {L("json", "set", 1, "data_value_deep", a) : a \in {0, 3, 40}}
     \cup {L("json", "res", 1, o, 0) : o \in {"del_text", "text_number", "id_number", "include_missing", "include_self", "dup"}}
